@@ -1,4 +1,5 @@
 from rope.base import (
+    ast,
     evaluate,
     exceptions,
     libutils,
@@ -120,6 +121,16 @@ class EncapsulateField:
         return new_source
 
 
+def _is_primary(code):
+    try:
+        node = ast.parse(code, mode="eval").body
+    except SyntaxError:
+        return False
+    return isinstance(
+        node, (ast.Constant, ast.Name, ast.Attribute, ast.Call, ast.Subscript)
+    )
+
+
 class GetterSetterRenameInModule:
     def __init__(self, project, name, pyname, getter, setter):
         self.project = project
@@ -148,6 +159,7 @@ class _FindChangesForModule:
         self.last_modified = 0
         self.last_set = None
         self.set_index = None
+        self.set_augmented = False
         self.skip_start = skip_start
         self.skip_end = skip_end
 
@@ -165,6 +177,7 @@ class _FindChangesForModule:
                 )
             if occurrence.is_written():
                 assignment_type = self.worder.get_assignment_type(start)
+                self.set_augmented = assignment_type != "="
                 if assignment_type == "=":
                     result.append(self.setter + "(")
                 else:
@@ -196,6 +209,9 @@ class _FindChangesForModule:
         if self.last_set is not None and self.last_set <= offset:
             result.append(self.source[self.last_modified : self.last_set])
             set_value = "".join(result[self.set_index :]).strip()
+            if self.set_augmented and not _is_primary(set_value):
+                # ``a.x *= 1 + 2`` is ``a.x = a.x * (1 + 2)``
+                set_value = "(" + set_value + ")"
             del result[self.set_index :]
             result.append(set_value + ")")
             self.last_modified = self.last_set
